@@ -90,6 +90,16 @@ func c11CallsGrammar() *gen.Grammar {
 	return gen.NewGrammar(rules)
 }
 
+// c11PostfixGrammar: chains of slices, indexes, members and method calls (each bracket form starts afresh).
+func c11PostfixGrammar() *gen.Grammar {
+	E := gen.TAny
+	rules := []*gen.Rule{gen.Lit("a", E, nil), gen.Lit("1", E, nil), gen.Lit("4", E, nil),
+		gen.Slice("ft", E), gen.Slice("f", E), gen.Slice("t", E), gen.Slice("", E), gen.Index(E, E, E),
+		gen.Prop(E, "p", E, false), gen.Method(E, "m", E, false, E), gen.Bin("+", E, E, E),
+	}
+	return gen.NewGrammar(rules)
+}
+
 // c11PunctGrammar: string literals that spell punctuation tokens, in every position where the parser probes for that token.
 var c11PunctLits = []string{`":"`, `"]"`, `"#"`, `")"`, `"}"`, `","`, `"?"`, `"."`}
 
@@ -124,6 +134,8 @@ func c11Want(e *gen.Expr) string {
 			return "(id " + r.Arg + ")"
 		case "1":
 			return "(int 1)"
+		case "4":
+			return "(int 4)"
 		case `"s"`:
 			return `(str "s")`
 		case "true":
@@ -321,7 +333,7 @@ func c11Tight(src string) (string, bool) {
 
 // ---- (ii) token sequences ----
 
-var c11Tokens = []string{"a", "1", `"s"`, `"("`, "matches", "not", "-", "*", "**", "and", "==", "in", "not in", "..", "?", ":", "(", ")", ".", "?.", "[", "]", ",", "{", "}", "#", "all", "f"}
+var c11Tokens = []string{"a", "1", `"s"`, `"("`, "matches", "1.5", "len", "not", "-", "*", "**", "and", "==", "in", "not in", "..", "?", ":", "(", ")", ".", "?.", "[", "]", ",", "{", "}", "#", "all", "f"}
 
 func init() { checks["C11"] = c11 }
 
@@ -337,9 +349,9 @@ func c11(r *report.Run) {
 		g    *gen.Grammar
 		maxN int
 	}
-	passes := []pass{{c11Grammar(false), 5}, {c11Grammar(true), 7}, {c11PunctGrammar(), 4}, {c11CallsGrammar(), 8}}
+	passes := []pass{{c11Grammar(false), 5}, {c11Grammar(true), 7}, {c11PunctGrammar(), 4}, {c11CallsGrammar(), 8}, {c11PostfixGrammar(), 7}}
 	if r.Tier == "thorough" {
-		passes = []pass{{c11Grammar(false), 6}, {c11Grammar(true), 8}, {c11PunctGrammar(), 5}, {c11CallsGrammar(), 9}}
+		passes = []pass{{c11Grammar(false), 6}, {c11Grammar(true), 8}, {c11PunctGrammar(), 5}, {c11CallsGrammar(), 9}, {c11PostfixGrammar(), 8}}
 	}
 	for _, ps := range passes {
 		g, maxN := ps.g, ps.maxN
